@@ -288,10 +288,11 @@ theorem Inv.first {Q : CNode K} {cover : Cover K} {zero : List (DN K)} {cur M : 
     hI.leafs, hI.sc, hnodes c0 mem_cons_self⟩
 
 /-- **`internal_batch_nearest_neighbor` is correct**: if it answers, every result is good -/
-theorem internalBatch_good (hm : IsMetric δ) (hK : 1 ≤ K0) (leafScale : Nat) :
+theorem internalBatch_good (hm : IsMetric δ) (hK : 1 ≤ K0) (leafScale : Nat) {hsort : List (DN K) → List (DN K)}
+    (hperm : ∀ l, (hsort l).Perm l) :
     ∀ (fuel : Nat) (Q : CNode K) (cover : Cover K) (zero : List (DN K)) (cur M : Nat) (ub : List K) (Off : List Nat)
       (res : List (List Nat)), Inv δ pts K0 Q cover zero cur M ub Off →
-      internalBatch δ K0 leafScale fuel Q cover zero cur M ub = some res → Good δ pts K0 Q.leaves res
+      internalBatch δ hsort K0 leafScale fuel Q cover zero cur M ub = some res → Good δ pts K0 Q.leaves res
   | 0, _, _, _, _, _, _, _, _, _, h => by simp [internalBatch] at h
   | fuel + 1, Q, cover, zero, cur, M, ub, Off, res, hI, h => by
     unfold internalBatch at h
@@ -325,16 +326,16 @@ theorem internalBatch_good (hm : IsMetric δ) (hK : 1 ≤ K0) (leafScale : Nat) 
           | none => simp at h
           | some rs =>
             dsimp only at h
-            cases h0 : internalBatch δ K0 leafScale fuel c0 cover zero cur M ub with
+            cases h0 : internalBatch δ hsort K0 leafScale fuel c0 cover zero cur M ub with
             | none => rw [h0] at h; simp at h
             | some r0 =>
               rw [h0] at h
               simp only [Option.some.injEq] at h
               subst h
-              have hg0 := internalBatch_good hm hK leafScale fuel c0 cover zero cur M ub Off r0 (hI.first hc) h0
+              have hg0 := internalBatch_good hm hK leafScale hperm fuel c0 cover zero cur M ub Off r0 (hI.first hc) h0
               have hgr : Good δ pts K0 ([] ++ rest.flatMap CNode.leaves) rs := by
                 refine foldl_results (δ := δ) (pts := pts) (K0 := K0)
-                  (fun C => internalBatch δ K0 leafScale fuel C
+                  (fun C => internalBatch δ hsort K0 leafScale fuel C
                     (copyCover δ K0 C cover (M + 1 - cur) cur
                       ((copyZero δ K0 C (fill K0 (addInf (ub0 K0 ub) C.parentDist)) zero).1, Cover.empty)).2
                     (copyZero δ K0 C (fill K0 (addInf (ub0 K0 ub) C.parentDist)) zero).2 cur M
@@ -345,7 +346,7 @@ theorem internalBatch_good (hm : IsMetric δ) (hK : 1 ≤ K0) (leafScale : Nat) 
                 · intro C; rfl
                 · intro C hC r hr
                   obtain ⟨Off', hIC⟩ := copy_Inv hm hK hI hcM hc hC
-                  exact internalBatch_good hm hK leafScale fuel C _ _ cur M _ Off' r hIC hr
+                  exact internalBatch_good hm hK leafScale hperm fuel C _ _ cur M _ Off' r hIC hr
               rw [nil_append] at hgr
               have := hgr.append hg0
               apply this.congr
@@ -357,11 +358,14 @@ theorem internalBatch_good (hm : IsMetric δ) (hK : 1 ≤ K0) (leafScale : Nat) 
         rw [if_neg hB] at h
         dsimp only at h
         have hσ : ∀ q' ∈ Q.leaves, δ Q.p q' ≤ Q.maxDist := leaves_within δ hI.qok.1
-        have hDI : DI δ pts K0 Q Q.leaves cur ⟨ub, M, cover, zero⟩ (cover cur) Off :=
-          ⟨hI.ub, hI.live, hI.leafs, fun s _ e he => (hI.sc s e he).2⟩
-        obtain ⟨Off', hD, hstep⟩ := descendParents_DI hm hK hσ (cover cur) ⟨ub, M, cover, zero⟩ Off hDI
-          (fun par hpar => (hI.sc cur par hpar).2.2)
-        set st := (cover cur).foldl (descendParent δ K0 Q) ⟨ub, M, cover, zero⟩ with hst
+        have hDI : DI δ pts K0 Q Q.leaves cur ⟨ub, M, cover, zero⟩ (hsort (cover cur)) Off := by
+          refine ⟨hI.ub, ?_, hI.leafs, fun s _ e he => (hI.sc s e he).2⟩
+          apply hI.live.perm
+          unfold dlive
+          exact ((hperm (cover cur)).append_left zero).append_right _
+        obtain ⟨Off', hD, hstep⟩ := descendParents_DI hm hK hσ (hsort (cover cur)) ⟨ub, M, cover, zero⟩ Off hDI
+          (fun par hpar => (hI.sc cur par ((hperm (cover cur)).mem_iff.1 hpar)).2.2)
+        set st := (hsort (cover cur)).foldl (descendParent δ K0 Q) ⟨ub, M, cover, zero⟩ with hst
         have hlow : ∀ s, s ≤ cur → st.cover s = cover s := hstep.low
         have hInv' : Inv δ pts K0 Q (st.cover.clear cur) st.zero (cur + 1) st.maxScale st.ub Off' := by
           refine ⟨hD.ub, ?_, hD.leafs, ?_, hI.qok⟩
@@ -401,7 +405,7 @@ theorem internalBatch_good (hm : IsMetric δ) (hK : 1 ≤ K0) (leafScale : Nat) 
             · have hcs : cur < s := by omega
               have := hD.sc s hcs e he'
               exact ⟨by omega, this⟩
-        exact internalBatch_good hm hK leafScale fuel Q _ _ _ _ _ Off' res hInv' h
+        exact internalBatch_good hm hK leafScale hperm fuel Q _ _ _ _ _ Off' res hInv' h
 
 /-- **`cover_query_exact`** : on a well-formed tree over the samples `0..N-1`, for every metric, if the batch
     query answers then it returns for every sample `q` at least one result `q :: cands`, and for every result the
@@ -409,8 +413,9 @@ theorem internalBatch_good (hm : IsMetric δ) (hK : 1 ≤ K0) (leafScale : Nat) 
     strictly closer) — which is what `find_neighbors_covertree_impl` needs to select the exact `K0 - 1` nearest
     neighbours. -/
 theorem batchQuery_good (hm : IsMetric δ) (hK : 1 ≤ K0) {N : Nat} (leafScale : Nat) {top : CNode K}
+    {hsort : List (DN K) → List (DN K)} (hperm : ∀ l, (hsort l).Perm l)
     (hwf : wfTree δ N top = true) (htopc : top.children ≠ []) {res : List (List Nat)}
-    (h : batchQuery δ K0 leafScale top = some res) :
+    (h : batchQuery δ hsort K0 leafScale top = some res) :
     Good δ (List.range N) K0 top.leaves res := by
   unfold wfTree at hwf
   simp only [Bool.and_eq_true, decide_eq_true_eq, beq_iff_eq, all_eq_true] at hwf
@@ -419,7 +424,7 @@ theorem batchQuery_good (hm : IsMetric δ) (hK : 1 ≤ K0) {N : Nat} (leafScale 
   have htop : top.p ∈ List.range N := hok.2.2 _ (p_mem_leaves δ top hw)
   unfold batchQuery at h
   dsimp only at h
-  apply internalBatch_good hm hK leafScale _ top _ [] 0 0 _ [top.p] res ?_ h
+  apply internalBatch_good hm hK leafScale hperm _ top _ [] 0 0 _ [top.p] res ?_ h
   have hc0 : (Cover.empty.push 0 ⟨δ top.p top.p, top⟩ : Cover K) 0 = [⟨δ top.p top.p, top⟩] := by
     simp [Cover.push, Cover.empty]
   have hcs : ∀ s, s ≠ 0 → (Cover.empty.push 0 ⟨δ top.p top.p, top⟩ : Cover K) s = [] := by
